@@ -1,7 +1,15 @@
 //! C03: the decoration D(P). Fills the slots that progen left in the program text with purely static
 //! TypeScript syntax chosen by the tape. Every production is syntax whose validity does not depend on
-//! the type checker: annotation types are `any`-compatible supertypes of the slot's static type, the
-//! wild type grammar only appears inside declarations (`type`, `interface`, `declare`) that nothing uses.
+//! the type checker's view of the program: annotation types are `any`-compatible supertypes of the
+//! slot's static type, the wild type grammar only appears inside declarations (`type`, `interface`,
+//! `declare ...`) that nothing uses. There is no tsc in the sandbox; each production follows the
+//! TypeScript handbook (Everyday Types, More on Functions, Object Types, Type Manipulation, Classes,
+//! Modules, Declaration Reference) or the release notes named at the production.
+//!
+//! Precedence rule of the type grammar: function, constructor and conditional types, unions with a
+//! leading `|` / `&` and `infer` are "low" and are parenthesised whenever they are an operand of
+//! `|`, `&`, `keyof`, `readonly`, `[]`, `[K]` or of an `extends` clause; everything else is valid
+//! wherever a type is expected.
 
 use super::{MARK, TS_CLOSE, TS_OPEN};
 use crate::findings::Gates;
@@ -10,19 +18,37 @@ use std::collections::BTreeMap;
 
 pub struct Decorated {
     pub text: String,
+    /// number of decorations inserted (type-grammar productions are not counted)
     pub count: usize,
+    /// decoration kinds and (`ty:` prefixed) type-grammar productions with their multiplicity
     pub kinds: BTreeMap<String, u32>,
     pub excluded: BTreeMap<String, u32>,
+}
+
+#[derive(Clone, Copy, Default)]
+pub struct DecoOpts {
+    /// the text is a module: `export`/`import type`/`declare global` are available, ambient module
+    /// declarations are not
+    pub module: bool,
+    /// nesting bound of the type grammar
+    pub depth: usize,
 }
 
 struct D<'t, 'a, 'g> {
     tape: &'t mut Tape<'a>,
     gates: &'g Gates,
+    opts: DecoOpts,
     kinds: BTreeMap<String, u32>,
     excluded: BTreeMap<String, u32>,
     count: usize,
     next: usize,
+    /// type parameter lists decided for named functions: name -> (text, arity)
+    generics: BTreeMap<String, (String, usize)>,
+    groups: BTreeMap<char, bool>,
 }
+
+/// Helper declarations the decorations refer to (all purely static).
+pub const TS_PRELUDE: &str = "type Num0 = number; type Str0 = string; type T0 = any; interface Marker0 {}\ndeclare function gen0<T>(x: T): T;\ndeclare namespace NS0 { interface I {} namespace Inner { type T<U> = U } }\n";
 
 impl<'t, 'a, 'g> D<'t, 'a, 'g> {
     fn gated(&mut self, g: &str) -> bool {
@@ -37,89 +63,310 @@ impl<'t, 'a, 'g> D<'t, 'a, 'g> {
         *self.kinds.entry(k.to_string()).or_insert(0) += 1;
         self.count += 1;
     }
+    fn tnote(&mut self, k: &str) {
+        *self.kinds.entry(format!("ty:{}", k)).or_insert(0) += 1;
+    }
 
     // ---------------------------------------------------------------- type grammar
     fn prim(&mut self) -> String {
-        let p = ["number", "string", "boolean", "null", "undefined", "void", "never", "unknown", "any", "object", "symbol", "bigint"];
+        let p = ["number", "string", "boolean", "null", "undefined", "void", "never", "unknown", "any", "object", "symbol", "bigint", "{}"];
         p[self.tape.below(p.len())].to_string()
     }
 
-    /// an arbitrary type expression (used only where nothing depends on it being the "right" type)
-    fn ty(&mut self, depth: usize) -> String {
-        if depth == 0 {
-            return match self.tape.below(6) {
-                0 => "\"lit\"".into(),
-                1 => "42".into(),
-                2 => "true".into(),
-                3 => "T0".into(),
-                _ => self.prim(),
-            };
-        }
-        let d = depth - 1;
-        match self.tape.below(22) {
-            0 => format!("{}[]", self.ty_paren(d)),
-            1 => format!("Array<{}>", self.ty(d)),
-            2 => format!("{} | {}", self.ty(d), self.ty(d)),
-            3 => format!("{} & {}", self.ty_paren(d), self.ty_paren(d)),
+    fn leaf(&mut self) -> String {
+        match self.tape.below(12) {
+            0 => "\"lit\"".into(),
+            1 => "42".into(),
+            2 => "true".into(),
+            3 => "T0".into(),
             4 => {
-                if self.gated("ts:leading-pipe-union") {
-                    return self.prim();
-                }
-                format!("| {} | {}", self.ty(d), self.ty(d))
+                self.tnote("literal-negative");
+                "-1".into()
             }
-            5 => format!("[{}, {}]", self.ty(d), self.ty(d)),
-            6 => {
-                if self.gated("ts:named-tuple") {
-                    return format!("[{}, {}]", self.ty(d), self.ty(d));
-                }
-                format!("[first: {}, second?: {}, ...rest: {}[]]", self.ty(d), self.ty(d), self.ty_paren(d))
+            5 => {
+                self.tnote("literal-bigint");
+                if self.tape.chance(1, 2) { "10n".into() } else { "-10n".into() }
             }
-            7 => format!("(a: {}, b?: {}) => {}", self.ty(d), self.ty(d), self.ty(d)),
-            8 => {
-                if self.gated("ts:constructor-type") {
-                    return self.prim();
-                }
-                format!("new (a: {}) => {}", self.ty(d), self.ty(d))
-            }
-            9 => format!("{{ a: {}; b?: {}; readonly c: {} }}", self.ty(d), self.ty(d), self.ty(d)),
-            10 => {
-                if self.gated("ts:call-construct-signature") {
-                    return format!("{{ m(x: {}): {} }}", self.ty(d), self.ty(d));
-                }
-                format!("{{ (x: {}): {}; new (x: {}): {}; m(x: {}): {}; [k: string]: any }}", self.ty(d), self.ty(d), self.ty(d), self.ty(d), self.ty(d), self.ty(d))
-            }
-            11 => format!("{{ [K in keyof T0]: {} }}", self.ty(d)),
-            12 => {
-                if self.gated("ts:mapped-type-modifiers") {
-                    return format!("{{ [K in keyof T0]: {} }}", self.ty(d));
-                }
-                format!("{{ readonly [K in keyof T0]?: {} }}", self.ty(d))
-            }
-            13 => format!("T0 extends {} ? {} : {}", self.ty_paren(d), self.ty(d), self.ty(d)),
-            14 => {
-                if self.gated("ts:infer") {
-                    return self.prim();
-                }
-                format!("T0 extends Array<infer U> ? U : {}", self.ty(d))
-            }
-            15 => "({ a: number; b: string })[\"a\"]".into(),
-            16 => "keyof T0".into(),
-            17 => "typeof globalThis".into(),
-            18 => {
-                if self.gated("ts:template-literal-type") {
-                    return "string".into();
-                }
-                "`pre-${string}-post`".into()
-            }
-            19 => format!("Map<string, {}>", self.ty(d)),
-            20 => format!("Promise<{}> | Record<string, {}>", self.ty(d), self.ty(d)),
-            _ => format!("Partial<{{ a: {} }}>", self.ty(d)),
+            6 => "false".into(),
+            7 => "'single'".into(),
+            _ => self.prim(),
         }
     }
 
-    fn ty_paren(&mut self, depth: usize) -> String {
-        let t = self.ty(depth);
-        if t.contains(' ') || t.starts_with('|') {
+    /// a type valid wherever a type is expected; .1 is true when it is "low" (see the module doc)
+    fn ty_p(&mut self, depth: usize) -> (String, bool) {
+        if depth == 0 {
+            return (self.leaf(), false);
+        }
+        let d = depth - 1;
+        let k = self.tape.below(44);
+        match k {
+            0 => {
+                self.tnote("array");
+                (format!("{}[]", self.op(d)), false)
+            }
+            1 => {
+                self.tnote("array-generic");
+                (format!("{}<{}>", if self.tape.chance(1, 3) { "ReadonlyArray" } else { "Array" }, self.ty(d)), false)
+            }
+            2 => {
+                self.tnote("union");
+                (format!("{} | {}", self.op(d), self.op(d)), false)
+            }
+            3 => {
+                self.tnote("intersection");
+                (format!("{} & {}", self.op(d), self.op(d)), false)
+            }
+            4 => {
+                self.tnote("union-of-intersections");
+                (format!("{} & {} | {} & {}", self.op(d), self.op(d), self.op(d), self.op(d)), false)
+            }
+            5 => {
+                if self.gated("ts:leading-pipe-union") {
+                    return (self.prim(), false);
+                }
+                self.tnote("leading-pipe");
+                if self.tape.chance(1, 4) {
+                    (format!("& {} & {}", self.op(d), self.op(d)), true)
+                } else {
+                    (format!("| {} | {}", self.op(d), self.op(d)), true)
+                }
+            }
+            6 => {
+                self.tnote("tuple");
+                match self.tape.below(6) {
+                    0 => (format!("[{}, {}]", self.ty(d), self.ty(d)), false),
+                    1 => (format!("[{}, {}?]", self.ty(d), self.op(d)), false),
+                    2 => (format!("[{}, ...{}[]]", self.ty(d), self.op(d)), false),
+                    3 => (format!("[...{}[], {}]", self.op(d), self.ty(d)), false),
+                    4 => ("[]".into(), false),
+                    _ => (format!("[{}]", self.ty(d)), false),
+                }
+            }
+            7 => {
+                if self.gated("ts:named-tuple") {
+                    return (format!("[{}, {}]", self.ty(d), self.ty(d)), false);
+                }
+                self.tnote("tuple-named");
+                // TypeScript 4.0: labelled tuple elements (all or none are labelled)
+                (format!("[first: {}, second?: {}, ...rest: {}[]]", self.ty(d), self.ty(d), self.op(d)), false)
+            }
+            8 => {
+                self.tnote("readonly-array-or-tuple");
+                // the `readonly` type operator is only permitted on array and tuple literal types
+                if self.tape.chance(1, 2) {
+                    (format!("readonly {}[]", self.op(d)), false)
+                } else {
+                    (format!("readonly [{}, {}]", self.ty(d), self.ty(d)), false)
+                }
+            }
+            9 => {
+                self.tnote("function");
+                (format!("(a: {}, b?: {}, ...r: {}[]) => {}", self.ty(d), self.ty(d), self.op(d), self.ty(d)), true)
+            }
+            10 => {
+                self.tnote("function-generic");
+                match self.tape.below(3) {
+                    0 => (format!("<U>(x: U) => {}", self.ty(d)), true),
+                    1 => {
+                        // the default has to satisfy the constraint: use the same type for both
+                        let c = self.ty(d);
+                        (format!("<U extends {} = {}, V = U[]>(x: U, ...r: V[]) => void", c, c), true)
+                    }
+                    _ => ("<const U extends readonly unknown[]>(x: U) => U".into(), true),
+                }
+            }
+            11 => {
+                self.tnote("function-this-parameter");
+                (format!("(this: {}, x: {}) => void", self.ty(d), self.ty(d)), true)
+            }
+            12 => {
+                if self.gated("ts:constructor-type") {
+                    return (self.prim(), false);
+                }
+                self.tnote("constructor");
+                match self.tape.below(3) {
+                    0 => (format!("new (a: {}) => {}", self.ty(d), self.ty(d)), true),
+                    1 => (format!("abstract new (...a: any[]) => {}", self.ty(d)), true),
+                    _ => (format!("new <U>(x: U) => {}", self.ty(d)), true),
+                }
+            }
+            13 => {
+                self.tnote("function-returning-union");
+                (format!("() => {} | {}", self.op(d), self.op(d)), true)
+            }
+            14 => {
+                if self.gated("ts:type-predicate") {
+                    return (self.prim(), false);
+                }
+                self.tnote("function-predicate");
+                match self.tape.below(3) {
+                    0 => (format!("(x: unknown) => x is {}", self.ty(d)), true),
+                    1 => (format!("(x: unknown) => asserts x is {}", self.ty(d)), true),
+                    _ => ("(x: unknown) => asserts x".into(), true),
+                }
+            }
+            15 => {
+                self.tnote("object");
+                let sep = if self.tape.chance(1, 3) { "," } else { ";" };
+                (format!("{{ a: {}{sep} b?: {}{sep} readonly c: {} }}", self.ty(d), self.ty(d), self.ty(d), sep = sep), false)
+            }
+            16 => {
+                if self.gated("ts:call-construct-signature") {
+                    return (format!("{{ m(x: {}): {} }}", self.ty(d), self.ty(d)), false);
+                }
+                self.tnote("object-signatures");
+                (
+                    format!(
+                        "{{ (x: {}): {}; new (x: {}): {}; <U>(x: U): U; m(x: {}): {}; o?(): void; g<U>(u: U): U; [k: string]: any; readonly [n: number]: any }}",
+                        self.ty(d),
+                        self.ty(d),
+                        self.ty(d),
+                        self.ty(d),
+                        self.ty(d),
+                        self.ty(d)
+                    ),
+                    false,
+                )
+            }
+            17 => {
+                self.tnote("object-member-names");
+                // reserved words, strings, numbers and computed well-known symbols as member names; accessors (TS 4.3)
+                (format!("{{ type: {}; readonly: boolean; readonly readonly: 1; new: 2; delete(): void; default: any; in: 3; abstract: 4; declare: 5; static: 6; \"quoted-name\": 7; 42: 8; [Symbol.iterator](): Iterator<{}>; get acc(): number; set acc(v: number) }}", self.ty(d), self.ty(d)), false)
+            }
+            18 => {
+                self.tnote("object-index-signatures");
+                (format!("{{ [k: string]: {}; [n: number]: {}; [s: symbol]: any; [t: `data-${{string}}`]: unknown }}", self.ty(d), self.ty(d)), false)
+            }
+            19 => {
+                self.tnote("mapped");
+                match self.tape.below(3) {
+                    0 => (format!("{{ [K in keyof T0]: {} }}", self.ty(d)), false),
+                    1 => ("{ [K in \"a\" | \"b\"]: K }".into(), false),
+                    _ => ("{ [K in keyof T0]: T0[K] }".into(), false),
+                }
+            }
+            20 => {
+                if self.gated("ts:mapped-type-modifiers") {
+                    return (format!("{{ [K in keyof T0]: {} }}", self.ty(d)), false);
+                }
+                self.tnote("mapped-modifiers");
+                match self.tape.below(4) {
+                    0 => (format!("{{ readonly [K in keyof T0]?: {} }}", self.ty(d)), false),
+                    1 => ("{ -readonly [K in keyof T0]-?: T0[K] }".into(), false),
+                    2 => (format!("{{ +readonly [K in keyof T0]+?: {} }}", self.ty(d)), false),
+                    // TypeScript 4.1: key remapping with `as`
+                    _ => ("{ [K in keyof T0 as `get${string & K}`]: () => T0[K] }".into(), false),
+                }
+            }
+            21 => {
+                self.tnote("conditional");
+                (format!("{} extends {} ? {} : {}", self.op(d), self.op(d), self.ty(d), self.ty(d)), true)
+            }
+            22 => {
+                self.tnote("conditional-chain");
+                (format!("T0 extends string ? \"s\" : T0 extends number ? \"n\" : T0 extends {} ? {} : never", self.op(d), self.ty(d)), true)
+            }
+            23 => {
+                if self.gated("ts:infer") {
+                    return (self.prim(), false);
+                }
+                self.tnote("conditional-infer");
+                match self.tape.below(6) {
+                    0 => (format!("T0 extends Array<infer U> ? U : {}", self.ty(d)), true),
+                    1 => ("T0 extends (infer U)[] ? U : never".into(), true),
+                    2 => ("T0 extends (...a: any[]) => infer R ? R : never".into(), true),
+                    3 => ("T0 extends [infer H, ...infer R] ? [H, R] : never".into(), true),
+                    4 => ("T0 extends `${infer H}.${infer R}` ? [H, R] : never".into(), true),
+                    // TypeScript 4.7: extends constraints on infer type variables
+                    _ => ("T0 extends [infer H extends string, ...unknown[]] ? H : never".into(), true),
+                }
+            }
+            24 => {
+                self.tnote("indexed-access");
+                match self.tape.below(8) {
+                    0 => ("({ a: number; b: string })[\"a\"]".into(), false),
+                    1 => ("{ a: number; b: string }[\"a\" | \"b\"]".into(), false),
+                    2 => ("T0[keyof T0]".into(), false),
+                    3 => ("T0[keyof T0][]".into(), false),
+                    4 => (format!("[{}, {}][0]", self.ty(d), self.ty(d)), false),
+                    5 => (format!("[{}, {}][number]", self.ty(d), self.ty(d)), false),
+                    6 => ("string[][number]".into(), false),
+                    _ => (format!("{}[][\"length\"]", self.op(d)), false),
+                }
+            }
+            25 => {
+                self.tnote("keyof");
+                match self.tape.below(4) {
+                    0 => ("keyof T0".into(), false),
+                    1 => (format!("keyof {}", self.op(d)), false),
+                    2 => ("keyof typeof globalThis".into(), false),
+                    _ => ("keyof T0[]".into(), false),
+                }
+            }
+            26 => {
+                self.tnote("typeof");
+                let q = ["typeof globalThis", "typeof Math.PI", "typeof console.log", "typeof JSON", "typeof Array.prototype.slice", "typeof __show", "typeof Number.MAX_SAFE_INTEGER"];
+                (q[self.tape.below(q.len())].to_string(), false)
+            }
+            27 => {
+                self.tnote("typeof-instantiation");
+                // TypeScript 4.7 instantiation expressions in type queries
+                ("ReturnType<typeof gen0<number>>".into(), false)
+            }
+            28 => {
+                if self.gated("ts:template-literal-type") {
+                    return ("string".into(), false);
+                }
+                self.tnote("template-literal");
+                let q = ["`pre-${string}-post`", "`${number}px`", "`${\"a\" | \"b\"}_${1 | 2}`", "`plain`", "Uppercase<`a${string}`>", "`a${`b${string}`}c`"];
+                (q[self.tape.below(q.len())].to_string(), false)
+            }
+            29 => {
+                self.tnote("generic-reference");
+                match self.tape.below(6) {
+                    0 => (format!("Map<string, {}>", self.ty(d)), false),
+                    1 => (format!("Promise<{}> | Record<string, {}>", self.ty(d), self.ty(d)), false),
+                    2 => (format!("Partial<{{ a: {} }}>", self.ty(d)), false),
+                    3 => (format!("Pick<{{ a: 1; b: {} }}, \"a\">", self.ty(d)), false),
+                    4 => (format!("Exclude<{}, {}>", self.ty(d), self.ty(d)), false),
+                    _ => (format!("Parameters<(a: {}) => void>", self.ty(d)), false),
+                }
+            }
+            30 => {
+                self.tnote("generic-nested-close");
+                // `>>` and `>>>` close nested type argument lists
+                if self.tape.chance(1, 2) {
+                    (format!("Array<Array<{}>>", self.ty(d)), false)
+                } else {
+                    (format!("Map<string, Array<Set<{}>>>", self.ty(d)), false)
+                }
+            }
+            31 => {
+                self.tnote("qualified-name");
+                if self.tape.chance(1, 2) { ("NS0.I".into(), false) } else { ("NS0.Inner.T<number>".into(), false) }
+            }
+            32 => {
+                self.tnote("parenthesized");
+                (format!("(({}))", self.ty(d)), false)
+            }
+            33 if self.opts.module => {
+                self.tnote("import-type");
+                // import types (TS 2.9): the module exists in module programs
+                if self.tape.chance(1, 2) { ("import(\"./types\").TA".into(), false) } else { ("typeof import(\"./types\")".into(), false) }
+            }
+            _ => (self.leaf(), false),
+        }
+    }
+
+    fn ty(&mut self, depth: usize) -> String {
+        self.ty_p(depth).0
+    }
+
+    /// a type usable as an operand of `|`, `&`, `keyof`, `[]`, `extends`
+    fn op(&mut self, depth: usize) -> String {
+        let (t, low) = self.ty_p(depth);
+        if low {
             format!("({})", t)
         } else {
             t
@@ -129,17 +376,17 @@ impl<'t, 'a, 'g> D<'t, 'a, 'g> {
     /// a type the slot's value certainly has (hint from progen) or a supertype of it
     fn compat(&mut self, hint: char) -> String {
         let base: &[&str] = match hint {
-            'n' => &["number", "number | undefined", "number | string", "any", "unknown", "Num0", "number | null"],
-            's' => &["string", "string | undefined", "string | number", "any", "unknown", "Str0"],
-            'b' => &["boolean", "boolean | undefined", "any", "unknown"],
+            'n' => &["number", "number | undefined", "number | string", "any", "unknown", "Num0", "number | null", "| number | bigint", "Readonly<number>"],
+            's' => &["string", "string | undefined", "string | number", "any", "unknown", "Str0", "string | `x${string}`"],
+            'b' => &["boolean", "boolean | undefined", "any", "unknown", "true | false"],
             'u' => &["null | undefined", "any", "unknown", "undefined | null | number"],
-            'N' => &["number[]", "Array<number>", "readonly number[]", "any[]", "any", "unknown", "(number | undefined)[]"],
+            'N' => &["number[]", "Array<number>", "readonly number[]", "any[]", "any", "unknown", "(number | undefined)[]", "ReadonlyArray<number>", "[...number[]]"],
             'S' => &["string[]", "Array<string>", "readonly string[]", "any[]", "any", "unknown"],
-            'A' => &["any[]", "Array<any>", "unknown[]", "any", "unknown"],
-            'o' => &["any", "object", "unknown", "Record<string, any>", "{ [k: string]: any }"],
-            'f' => &["any", "Function", "(...args: any[]) => any", "unknown"],
-            'm' => &["Map<any, any>", "any", "unknown", "Map<string, number>"],
-            'e' => &["Set<any>", "any", "unknown", "Set<number>"],
+            'A' => &["any[]", "Array<any>", "unknown[]", "any", "unknown", "readonly unknown[]"],
+            'o' => &["any", "object", "unknown", "Record<string, any>", "{ [k: string]: any }", "{}"],
+            'f' => &["any", "Function", "(...args: any[]) => any", "unknown", "{ (...args: any[]): any }"],
+            'm' => &["Map<any, any>", "any", "unknown", "Map<string, number>", "ReadonlyMap<any, any>"],
+            'e' => &["Set<any>", "any", "unknown", "Set<number>", "ReadonlySet<any>"],
             _ => &["any", "unknown"],
         };
         let t = base[self.tape.below(base.len())];
@@ -155,9 +402,54 @@ impl<'t, 'a, 'g> D<'t, 'a, 'g> {
         }
     }
 
+    fn type_params(&mut self, for_class: bool) -> (String, usize) {
+        let pool: &[(&str, usize)] = if for_class {
+            &[("<T = any>", 1), ("<T extends object = {}>", 1), ("<T = any, U extends T[] = T[]>", 2), ("<in out T = unknown>", 1)]
+        } else {
+            &[("<T>", 1), ("<T, U>", 2), ("<T extends object>", 1), ("<T = any>", 1), ("<T extends string | number = string, U extends T[] = T[]>", 2), ("<const T>", 1), ("<T extends readonly unknown[] = []>", 1)]
+        };
+        let (t, n) = pool[self.tape.below(pool.len())];
+        if t == "<const T>" && self.gated("ts:const-type-parameter") {
+            return ("<T>".into(), 1);
+        }
+        (t.to_string(), n)
+    }
+
     // ---------------------------------------------------------------- slots
-    fn slot(&mut self, kind: char, hint: char) -> String {
-        // roughly half of the slots stay empty
+    fn as_suffix(&mut self, hint: char) -> String {
+        match self.tape.below(5) {
+            0 | 1 => {
+                self.note("assertion:as");
+                format!(" as {}", self.assert_target(hint))
+            }
+            2 => {
+                if self.gated("ts:as-chain") {
+                    self.note("assertion:as");
+                    return " as any".into();
+                }
+                self.note("assertion:as-chain");
+                format!(" as unknown as {}", self.compat(hint))
+            }
+            3 => {
+                if self.gated("ts:satisfies") {
+                    return String::new();
+                }
+                self.note("assertion:satisfies");
+                // TypeScript 4.9
+                format!(" satisfies {}", self.compat(hint))
+            }
+            _ => {
+                if self.gated("ts:satisfies") {
+                    return String::new();
+                }
+                self.note("assertion:satisfies-as");
+                format!(" satisfies unknown as {}", self.assert_target(hint))
+            }
+        }
+    }
+
+    /// `name` = identifier directly before the mark (function name for 't' / callee for 'u')
+    fn slot(&mut self, kind: char, hint: char, name: &str) -> String {
         match kind {
             'v' | 'p' | 'r' => {
                 if !self.tape.chance(1, 2) {
@@ -171,31 +463,43 @@ impl<'t, 'a, 'g> D<'t, 'a, 'g> {
                 let t = if kind == 'r' && self.tape.chance(1, 6) { "any".to_string() } else { self.compat(hint) };
                 format!(": {}", t)
             }
+            'V' => {
+                // `let x;` directly followed by an assignment: annotation and/or definite assignment assertion
+                match self.tape.below(4) {
+                    0 => String::new(),
+                    1 => {
+                        self.note("annotation:variable");
+                        format!(": {}", self.compat(hint))
+                    }
+                    _ => {
+                        self.note("annotation:definite-assignment");
+                        format!("!: {}", self.compat(hint))
+                    }
+                }
+            }
+            'k' => {
+                if !self.tape.chance(1, 2) {
+                    return String::new();
+                }
+                self.note("annotation:catch-variable");
+                if self.tape.chance(1, 2) { ": unknown".into() } else { ": any".into() }
+            }
             'a' => {
                 if !self.tape.chance(1, 2) {
                     return String::new();
                 }
-                match self.tape.below(4) {
-                    0 | 1 => {
-                        self.note("assertion:as");
-                        format!(" as {}", self.assert_target(hint))
-                    }
-                    2 => {
-                        if self.gated("ts:as-chain") {
-                            self.note("assertion:as");
-                            return " as any".into();
-                        }
-                        self.note("assertion:as-chain");
-                        format!(" as unknown as {}", self.compat(hint))
-                    }
-                    _ => {
-                        if self.gated("ts:satisfies") {
-                            return String::new();
-                        }
-                        self.note("assertion:satisfies");
-                        format!(" satisfies {}", self.compat(hint))
-                    }
+                self.as_suffix(hint)
+            }
+            'A' => {
+                // bare (unparenthesised) assertion at the end of an initialiser, argument or return value
+                if !self.tape.chance(1, 5) {
+                    return String::new();
                 }
+                let s = self.as_suffix(hint);
+                if !s.is_empty() {
+                    self.note("assertion:bare-position");
+                }
+                s
             }
             'g' => {
                 if !self.tape.chance(1, 5) {
@@ -205,20 +509,34 @@ impl<'t, 'a, 'g> D<'t, 'a, 'g> {
                     return String::new();
                 }
                 self.note("assertion:angle-bracket");
-                format!("<{}>", if self.tape.chance(1, 2) { "any".to_string() } else { "unknown".to_string() })
+                format!("<{}>", self.assert_target(hint))
             }
             'b' => {
                 if !self.tape.chance(1, 4) {
                     return String::new();
                 }
                 self.note("non-null:!");
-                "!".into()
+                if self.tape.chance(1, 8) { "!!".into() } else { "!".into() }
             }
             's' => {
                 if !self.tape.chance(1, 2) {
                     return String::new();
                 }
                 self.stmt_level()
+            }
+            'l' => {
+                if !self.tape.chance(1, 4) {
+                    return String::new();
+                }
+                let n = self.next;
+                self.next += 1;
+                self.note("decl:local-type");
+                let dd = self.opts.depth.min(2);
+                if self.tape.chance(1, 2) {
+                    format!("type L{}<T0 = any> = {};", n, self.ty(dd))
+                } else {
+                    format!("interface LI{} {{ a: {}; m(): void }}", n, self.ty(dd))
+                }
             }
             'c' => {
                 if !self.tape.chance(1, 2) {
@@ -241,93 +559,170 @@ impl<'t, 'a, 'g> D<'t, 'a, 'g> {
                 self.note("modifier:method");
                 "public ".into()
             }
+            'D' => {
+                // before `static`
+                if !self.tape.chance(1, 2) {
+                    return String::new();
+                }
+                self.note("modifier:before-static");
+                "public ".into()
+            }
+            'O' => {
+                // between `static` and a field name
+                if !self.tape.chance(1, 2) {
+                    return String::new();
+                }
+                self.note("modifier:after-static");
+                "readonly ".into()
+            }
             'R' => {
                 if !self.tape.chance(1, 2) {
                     return String::new();
                 }
                 self.note("annotation:rest-parameter");
-                ": any[]".into()
+                if self.tape.chance(1, 2) { ": any[]".into() } else { ": unknown[]".into() }
             }
             'T' => {
-                if !self.tape.chance(1, 3) {
+                if !self.tape.chance(1, 2) {
                     return String::new();
                 }
                 self.note("generics:class-type-parameters");
-                let pool = ["<T = any>", "<T extends object = {}>", "<T = any, U extends T[] = T[]>"];
-                pool[self.tape.below(pool.len())].to_string()
+                self.type_params(true).0
             }
-            't' => {
-                if !self.tape.chance(1, 3) {
+            't' => match self.generics.get(name) {
+                Some((text, _)) => {
+                    let text = text.clone();
+                    self.note("generics:type-parameters");
+                    text
+                }
+                None => String::new(),
+            },
+            'w' => {
+                if !self.tape.chance(1, 4) {
                     return String::new();
                 }
-                self.note("generics:type-parameters");
-                let pool = ["<T>", "<T, U>", "<T extends object>", "<T = any>", "<T extends string | number = string, U extends T[] = T[]>", "<const T>"];
-                let t = pool[self.tape.below(pool.len())];
-                if t == "<const T>" && self.gated("ts:const-type-parameter") {
-                    return "<T>".into();
+                if self.gated("ts:generic-arrow") {
+                    return String::new();
                 }
-                t.to_string()
+                self.note("generics:arrow-type-parameters");
+                let pool = ["<T,>", "<T>", "<T extends unknown>", "<T, U = T[]>", "<const T,>"];
+                pool[self.tape.below(pool.len())].to_string()
             }
             'u' => {
-                if !self.tape.chance(1, 6) {
+                // explicit type arguments only on calls of functions that D made generic
+                let Some((_, arity)) = self.generics.get(name).cloned() else { return String::new() };
+                if !self.tape.chance(3, 4) {
                     return String::new();
                 }
                 if self.gated("ts:call-type-arguments") {
                     return String::new();
                 }
                 self.note("generics:call-type-arguments");
-                // only valid when the callee is generic; the function slots above add type parameters
-                // independently, so explicit type arguments are only emitted as `<any>`-free no-ops:
-                String::new()
+                // `any` satisfies every constraint used by `type_params`
+                let args: Vec<&str> = (0..arity).map(|_| "any").collect();
+                format!("<{}>", args.join(", "))
             }
             'i' => {
-                if !self.tape.chance(1, 3) {
+                if !self.tape.chance(1, 2) {
                     return String::new();
                 }
                 self.note("class:implements");
-                " implements Marker0".into()
+                if self.tape.chance(1, 2) { " implements Marker0".into() } else { " implements Marker0, NS0.I".into() }
             }
             _ => String::new(),
+        }
+    }
+
+    fn interface_body(&mut self, d: usize) -> String {
+        let mut m = vec![format!("a: {}", self.ty(d)), format!("b?: {}", self.ty(d.min(1))), format!("readonly c: {}", self.ty(d.min(1))), format!("m(x: {}): {}", self.ty(d.min(1)), self.ty(d.min(1)))];
+        if self.tape.chance(1, 2) && !self.gated("ts:call-construct-signature") {
+            m.push(format!("(x: {}): string", self.ty(d.min(1))));
+            m.push("new (x: number): Marker0".into());
+            m.push("<U>(x: U): U".into());
+        }
+        if self.tape.chance(1, 2) {
+            m.push("self(): this".into());
+            m.push("is(): this is Marker0".into());
+            m.push("get acc(): number".into());
+            m.push("set acc(v: number)".into());
+            m.push("opt?(): void".into());
+            m.push("[Symbol.iterator](): Iterator<number>".into());
+        }
+        if self.tape.chance(1, 3) {
+            m.push("type: string".into());
+            m.push("readonly: boolean".into());
+            m.push("new: number".into());
+            m.push("\"quoted\": 1".into());
+        }
+        // members separated by `;`, `,` or line breaks
+        match self.tape.below(4) {
+            0 => format!("{{\n  {}\n}}", m.join("\n  ")),
+            1 => format!("{{ {} }}", m.join(", ")),
+            _ => format!("{{ {} }}", m.join("; ")),
         }
     }
 
     fn stmt_level(&mut self) -> String {
         let n = self.next;
         self.next += 1;
-        match self.tape.below(12) {
+        let dd = self.opts.depth;
+        let k = self.tape.below(if self.opts.module { 22 } else { 18 });
+        match k {
             0 => {
                 self.note("decl:interface");
-                format!("interface I{}<T0 = any> {{ a: {}; b?: {}; readonly c: {}; m(x: {}): {} }}\n", n, self.ty(2), self.ty(1), self.ty(1), self.ty(1), self.ty(1))
+                format!("interface I{}<T0 = any> {}\n", n, self.interface_body(dd.min(2)))
             }
             1 => {
                 self.note("decl:type-alias");
-                format!("type A{}<T0 = any> = {};\n", n, self.ty(3))
+                format!("type A{}<T0 = any> = {};\n", n, self.ty(dd))
             }
             2 => {
                 self.note("decl:interface-generic-extends");
-                format!("interface J{}<T0 extends object = {{}}> extends Marker0 {{ [k: string]: any; gen<U>(u: U): T0 }}\n", n)
+                match self.tape.below(3) {
+                    0 => format!("interface J{}<T0 extends object = {{}}> extends Marker0 {{ [k: string]: any; gen<U>(u: U): T0 }}\n", n),
+                    1 => format!("interface J{}<T0> extends Marker0, Array<T0>, NS0.I {{}}\n", n),
+                    // declaration merging + variance annotations (TS 4.7)
+                    _ => format!("interface J{n}<in A, out B, in out C> {{ f(a: A): B; g(c: C): C }}\ninterface J{n}<in A, out B, in out C> {{ h(): void }}\n", n = n),
+                }
             }
             3 => {
                 self.note("decl:declare-const");
-                format!("declare const dc{}: {};\n", n, self.ty(2))
+                if self.tape.chance(1, 3) {
+                    format!("declare const dc{n}: {}, dd{n}: {};\n", self.ty(dd.min(2)), self.ty(1), n = n)
+                } else {
+                    format!("declare const dc{}: {};\n", n, self.ty(dd.min(2)))
+                }
             }
             4 => {
                 self.note("decl:declare-function");
-                format!("declare function df{}<T0>(x: {}, ...rest: any[]): {};\n", n, self.ty(1), self.ty(1))
+                match self.tape.below(3) {
+                    0 => format!("declare function df{}<T0>(x: {}, ...rest: any[]): {};\n", n, self.ty(1), self.ty(1)),
+                    1 => format!("declare function df{n}(x: number): number;\ndeclare function df{n}(x: string): string;\ndeclare function df{n}(this: void, x?: unknown): x is string;\n", n = n),
+                    _ => format!("declare function df{}(x: unknown): asserts x is {};\n", n, self.ty(1)),
+                }
             }
             5 => {
                 if self.gated("ts:declare-class") {
                     return String::new();
                 }
                 self.note("decl:declare-class");
-                format!("declare class DC{}<T0 = any> {{ constructor(x: {}); private p: number; static s: string; m(): T0 }}\n", n, self.ty(1))
+                format!(
+                    "declare class DC{}<T0 = any> extends Array<T0> implements Marker0 {{ constructor(x: {}); constructor(); private p: number; protected static s: string; public static readonly r: 1; m(): T0; m(x: number): void; get g(): number; set g(v: number); [k: string]: any; protected abstract?: number; readonly #priv: number; static create<U>(this: void, u: U): DC{}<U> }}\n",
+                    n,
+                    self.ty(1),
+                    n
+                )
             }
             6 => {
                 if self.gated("ts:declare-module") {
                     return String::new();
                 }
                 self.note("decl:declare-namespace");
-                format!("declare namespace DN{} {{ const x: number; function f(a: string): void; interface K {{ k: {} }} }}\n", n, self.ty(1))
+                if self.tape.chance(1, 3) {
+                    format!("declare namespace DN{}.Deep.Er {{ let y: number }}\n", n)
+                } else {
+                    format!("declare namespace DN{} {{ const x: number; function f(a: string): void; function f(a: number): void; interface K {{ k: {} }} class C {{ m(): void }} namespace Inner {{ let y: number }} export const z: number; type T = number }}\n", n, self.ty(1))
+                }
             }
             7 => {
                 if self.gated("ts:declare-global") {
@@ -338,52 +733,162 @@ impl<'t, 'a, 'g> D<'t, 'a, 'g> {
             }
             8 => {
                 self.note("decl:type-alias-function");
-                format!("type F{} = <T0>(x: T0, y?: {}) => x is any;\n", n, self.ty(1)).replace("x is any", "T0")
+                format!("type F{} = <T0>(x: T0, y?: {}) => T0;\n", n, self.ty(1))
             }
             9 => {
                 if self.gated("ts:type-predicate") {
                     return String::new();
                 }
                 self.note("decl:type-predicate");
-                format!("type P{} = (x: unknown) => x is string;\ntype Q{} = (x: unknown) => asserts x is number;\n", n, n)
+                format!("type P{} = (x: unknown) => x is string;\ntype Q{} = (x: unknown) => asserts x is number;\ninterface G{} {{ g(x: any): x is number; h(this: G{}, x: any): asserts x }}\n", n, n, n, n)
             }
             10 => {
                 if self.gated("ts:abstract-class-decl") {
                     return String::new();
                 }
-                self.note("decl:abstract-class-unused");
-                format!("abstract class Ab{} {{ abstract m(x: number): string; abstract readonly p: number; protected abstract q(): void; }}\n", n)
+                self.note("decl:declare-abstract-class");
+                format!("declare abstract class Ab{} {{ abstract m(x: number): string; abstract readonly p: number; protected abstract q(): void; abstract get g(): number; abstract set g(v: number); private static override?: number }}\n", n)
             }
-            _ => {
+            11 => {
                 if self.gated("ts:unique-symbol") {
                     return String::new();
                 }
                 self.note("decl:unique-symbol");
-                format!("declare const us{}: unique symbol;\n", n)
+                format!("declare const us{}: unique symbol;\ndeclare class US{} {{ static readonly key: unique symbol }}\n", n, n)
+            }
+            12 => {
+                self.note("decl:declare-type-interface");
+                format!("declare type DT{} = {};\ndeclare interface DI{} {{ a: 1 }}\n", n, self.ty(1), n)
+            }
+            13 => {
+                self.note("decl:type-alias-asi");
+                // declarations ended by line breaks instead of semicolons
+                format!("type S{n} = number\ntype R{n} = {{\n  a: S{n}\n  b: string[]\n  [k: number]: unknown\n}}\n", n = n)
+            }
+            14 if !self.opts.module => {
+                self.note("decl:declare-module");
+                // ambient module declarations (scripts only; in a module they would be augmentations)
+                if self.tape.chance(1, 3) {
+                    format!("declare module \"*.ext{}\";\n", n)
+                } else {
+                    format!("declare module \"amb{}\" {{ export const x: number; export default function f(): void; export interface I {{}} export type {{ I as X }}; export {{ x as y }}; }}\n", n)
+                }
+            }
+            14 | 18 => {
+                self.note("decl:declare-global");
+                format!("declare global {{ interface GlobalThing{} {{ a: 1 }} var gv{}: number; }}\n", n, n)
+            }
+            15 => {
+                self.note("decl:interface-merge-with-value");
+                // a type may share its name with nothing at all; two merged declarations
+                format!("interface M{n} {{ a: 1 }}\ninterface M{n} {{ b: 2 }}\ntype MK{n} = keyof M{n};\n", n = n)
+            }
+            16 => {
+                self.note("decl:type-alias");
+                format!("type A{}<T0 extends {} = any, const_ = T0> = {};\n", n, self.op(1), self.ty(dd))
+            }
+            17 => {
+                self.note("decl:interface");
+                format!("interface I{} extends Marker0 {}\n", n, self.interface_body(dd.min(2)))
+            }
+            19 => {
+                self.note("module:export-type-declaration");
+                match self.tape.below(4) {
+                    0 => format!("export interface EI{} {{ a: {} }}\n", n, self.ty(1)),
+                    1 => format!("export type ET{} = {};\n", n, self.ty(dd.min(2))),
+                    2 => format!("export declare const ed{n}: number;\nexport declare function ef{n}(): void;\nexport declare class EC{n} {{ m(): void }}\n", n = n),
+                    _ => format!("export declare namespace EN{} {{ const x: 1 }}\n", n),
+                }
+            }
+            20 => {
+                self.note("module:import-type");
+                match self.tape.below(4) {
+                    0 => format!("import type {{ TA as TA{} }} from \"./types\";\n", n),
+                    1 => format!("import type TD{} from \"./types\";\n", n),
+                    2 => format!("import type * as TN{} from \"./types\";\n", n),
+                    _ => format!("import type {{ TA as TX{n}, TB as TY{n} }} from \"./types\";\n", n = n),
+                }
+            }
+            _ => {
+                self.note("module:export-type-list");
+                match self.tape.below(4) {
+                    0 => format!("export type {{ TA as RA{} }} from \"./types\";\n", n),
+                    1 => format!("export type * as RN{} from \"./types\";\n", n),
+                    2 => format!("type LT{n} = 1;\nexport type {{ LT{n} }};\n", n = n),
+                    _ => format!("type LU{n} = 2;\nexport {{ type LU{n} as LV{n} }};\n", n = n),
+                }
             }
         }
     }
 }
 
-/// Fill the decoration slots of `marked`. The prelude declares the helper types the slots refer to.
+fn ident_before(out: &str) -> &str {
+    let end = out.len();
+    let start = out.char_indices().rev().take_while(|(_, c)| c.is_ascii_alphanumeric() || *c == '_' || *c == '$').last().map(|(i, _)| i).unwrap_or(end);
+    &out[start..end]
+}
+
+/// Fill the decoration slots of `marked` (script, default options).
 pub fn decorate(marked: &str, tape: &mut Tape, gates: &Gates) -> Decorated {
-    let mut d = D { tape, gates, kinds: BTreeMap::new(), excluded: BTreeMap::new(), count: 0, next: 0 };
+    decorate_with(marked, tape, gates, DecoOpts { module: false, depth: 3 })
+}
+
+/// Fill the decoration slots of `marked`. `TS_PRELUDE` declares the helper types the slots refer to.
+pub fn decorate_with(marked: &str, tape: &mut Tape, gates: &Gates, opts: DecoOpts) -> Decorated {
+    let mut d = D { tape, gates, opts, kinds: BTreeMap::new(), excluded: BTreeMap::new(), count: 0, next: 0, generics: BTreeMap::new(), groups: BTreeMap::new() };
+    // pass 1: decide which named functions become generic (calls may precede the declaration)
+    {
+        let chars: Vec<char> = marked.chars().collect();
+        let mut name = String::new();
+        let mut i = 0;
+        while i < chars.len() {
+            let c = chars[i];
+            if c == MARK {
+                if chars.get(i + 1) == Some(&'t') && !name.is_empty() && !d.generics.contains_key(&name) && d.tape.chance(1, 2) {
+                    let tp = d.type_params(false);
+                    d.generics.insert(name.clone(), tp);
+                }
+                i += 3;
+                name.clear();
+                continue;
+            }
+            if c.is_ascii_alphanumeric() || c == '_' || c == '$' {
+                name.push(c);
+            } else {
+                name.clear();
+            }
+            i += 1;
+        }
+    }
     let mut out = String::with_capacity(marked.len() * 2);
-    out.push_str("type Num0 = number; type Str0 = string; type T0 = any; interface Marker0 {}\n");
+    out.push_str(TS_PRELUDE);
     let mut it = marked.chars();
-    // optional blocks: decide once per block (nesting is not used by the generator)
     let mut skipping = false;
     while let Some(c) = it.next() {
         if c == MARK {
             let kind = it.next().unwrap_or(' ');
             let hint = it.next().unwrap_or('a');
             if !skipping {
-                let s = d.slot(kind, hint);
+                let name = ident_before(&out).to_string();
+                let s = d.slot(kind, hint, &name);
                 out.push_str(&s);
             }
         } else if c == TS_OPEN {
-            if d.tape.chance(1, 2) {
-                d.note("ts-only-block");
+            let group = it.next().unwrap_or('0');
+            let keep = if group == '0' {
+                d.tape.chance(1, 2)
+            } else {
+                match d.groups.get(&group) {
+                    Some(k) => *k,
+                    None => {
+                        let k = d.tape.chance(1, 2);
+                        d.groups.insert(group, k);
+                        k
+                    }
+                }
+            };
+            if keep {
+                d.note(if group == '0' { "ts-only-block" } else { "ts-only-block:abstract-class" });
             } else {
                 skipping = true;
             }
